@@ -6,6 +6,7 @@ import (
 	"fmt"
 	"os"
 	"path/filepath"
+	"regexp"
 	"runtime"
 	"strings"
 	"time"
@@ -555,6 +556,8 @@ func vHostileEncoded(tp *verifsim.Tape, payload string) string {
 	}
 }
 
+var vDataSizeLine = regexp.MustCompile(`(?:^|\n)#DATA:(\d{1,10})\n`)
+
 func vScenarioC12(rc *runCtx) {
 	switch rc.param("mode", "fields") {
 	case "archive":
@@ -599,6 +602,19 @@ func vScenarioC12(rc *runCtx) {
 			cfg.cliWindows, o.cliWindows = true, true
 		}
 	}
+	// binary mode: a raw block whose last byte is the escape leader (half an escape pair at the very end); every
+	// protocol version has its own reader for such blocks
+	leaderTail := cfg.binary && !cfg.tunnel && !hugeBuf && !relayhs && tp.Bool("c12.leadertail", 150)
+	if leaderTail {
+		rc.fault("leadertail-run")
+		cfg.protocol = 1 + tp.Draw("c12.leadertailproto", 4)
+		cfg.trigVersion = ""
+		o2 := cfg.opts()
+		cfg.relays = 0
+		o2.srcPaths, o2.dstDir, o2.kHash, o2.profile, o2.simCap, o2.cols, o2.relays = o.srcPaths, o.dstDir, o.kHash, o.profile, o.simCap, o.cols, 0
+		o2.cliWindows, o2.srvWindows = o.cliWindows, o.srvWindows
+		o = o2
+	}
 	x := newXferWorld(rc, o)
 	w := rc.w
 	dir := tp.Draw("c12.dir", 2) // 0: attack the server (edit client->server), 1: attack the client
@@ -617,6 +633,14 @@ func vScenarioC12(rc *runCtx) {
 			l = x.up[0]
 		}
 	}
+	if leaderTail {
+		// the side that receives the file is the one attacked
+		if cfg.upload {
+			dir, l = 0, x.upLast()
+		} else {
+			dir, l = 1, x.down[0]
+		}
+	}
 	pm := []int{60, 200, 500}[tp.Draw("c12.rate", 3)]
 	max := 1 + tp.Pick("c12.max", 5, 2, 1)
 	fired := 0
@@ -624,6 +648,9 @@ func vScenarioC12(rc *runCtx) {
 	var log []string
 	prev := l.Mangle
 	ed := vLineEdit(func(typ, payload string, nth int) (string, bool) {
+		if leaderTail {
+			return "", false // this run attacks the raw blocks only
+		}
 		if hugeBuf {
 			switch {
 			case typ == "CFG":
@@ -707,18 +734,18 @@ func vScenarioC12(rc *runCtx) {
 			case "ACT", "CFG", "NAME", "HASH", "MD5", "EXIT", "fail", "FAIL":
 				np = vHostileEncoded(tp, payload)
 				if typ == "NAME" && tp.Bool("c12.namepath", 400) {
-				// the path list of a file record is a structure of its own: empty, wrong types, empty elements
-				if raw, err := vDecode(payload); err == nil {
-					var m map[string]any
-					if json.Unmarshal(raw, &m) == nil && m != nil && m["path_name"] != nil {
-						shapes := []string{`[]`, `[""]`, `null`, `"name"`, `[1]`, `[[]]`, `["a",""]`, `[null]`, `{}`, `["a",7]`}
-						m["path_name"] = json.RawMessage(shapes[tp.Pick("c12.namepathshape", 5, 2, 1, 1, 1, 1, 1, 1, 1, 1)])
-						if js, err := json.Marshal(m); err == nil {
-							np = vEncode(js)
+					// the path list of a file record is a structure of its own: empty, wrong types, empty elements
+					if raw, err := vDecode(payload); err == nil {
+						var m map[string]any
+						if json.Unmarshal(raw, &m) == nil && m != nil && m["path_name"] != nil {
+							shapes := []string{`[]`, `[""]`, `null`, `"name"`, `[1]`, `[[]]`, `["a",""]`, `[null]`, `{}`, `["a",7]`}
+							m["path_name"] = json.RawMessage(shapes[tp.Pick("c12.namepathshape", 5, 2, 1, 1, 1, 1, 1, 1, 1, 1)])
+							if js, err := json.Marshal(m); err == nil {
+								np = vEncode(js)
+							}
 						}
 					}
-				}
-			} else if (typ == "CFG" || typ == "ACT" || typ == "NAME" || typ == "HASH") && tp.Bool("c12.known", 400) {
+				} else if (typ == "CFG" || typ == "ACT" || typ == "NAME" || typ == "HASH") && tp.Bool("c12.known", 400) {
 					// a well-formed record in which only known fields carry boundary values
 					if raw, err := vDecode(payload); err == nil {
 						var m map[string]any
@@ -754,9 +781,52 @@ func vScenarioC12(rc *runCtx) {
 		log = append(log, fmt.Sprintf("%s#%d %s -> %s", typ, nth, vClip(payload, 24), vClip(strings.TrimPrefix(np, vWholeLine), 40)))
 		return np, true
 	})
+	// binary mode: a raw block whose last byte is the escape leader (half an escape pair at the very end)
+	leaderTail = leaderTail && dir < 2
+	blockLeft := -1
 	l.Mangle = func(ll *verifsim.Link, d []byte) []byte {
 		if prev != nil {
 			d = prev(ll, d)
+		}
+		if leaderTail && fired < max {
+			if blockLeft > 0 {
+				if len(d) >= blockLeft {
+					if tp.Bool("c12.leadertailfire", 400) {
+						d = append([]byte(nil), d...)
+						d[blockLeft-1] = 0xee
+						fired++
+						rc.fault("hostile-DATA-block-ends-in-leader")
+						log = append(log, "DATA block: last byte -> 0xee")
+					}
+					blockLeft = -1
+				} else {
+					blockLeft -= len(d)
+				}
+				return d
+			}
+			// a size line anywhere in this write (a sender may put several lines into one write)
+			if m := vDataSizeLine.FindSubmatchIndex(d); m != nil {
+				n := 0
+				fmt.Sscanf(string(d[m[2]:m[3]]), "%d", &n)
+				start := m[1] // first byte of the block
+				rest := len(d) - start
+				if n > 0 {
+					rc.fault("leadertail-header-seen")
+					switch {
+					case rest >= n:
+						if tp.Bool("c12.leadertailfire", 400) {
+							d = append([]byte(nil), d...)
+							d[start+n-1] = 0xee
+							fired++
+							rc.fault("hostile-DATA-block-ends-in-leader")
+							log = append(log, "DATA block: last byte -> 0xee")
+						}
+					default:
+						blockLeft = n - rest // the block follows in writes of its own
+					}
+					return d
+				}
+			}
 		}
 		return ed(ll, d)
 	}
